@@ -222,13 +222,14 @@ def hSpawn : Handler := fun j => do
     let c06 := !inputWF || (sameTopo && shared == "" && startIntact)
     let c02 := !inputWF || (PopSpec.popInvB ip o.popSize && popHeapOk popJ)
     let c01 := !inputWF || members.all (fun m => decide (WF m.genome))
-    let c03 := !inputWF || (decide (ip.reg.nextInn ≥ (g.genes.map (·.inn)).foldl max 0) && decide (ip.reg.nextNode > (g.nodes.map (·.id)).foldl max 0))
+    let c03 := !inputWF || (decide (ip.reg.nextInn ≥ (g.genes.map (·.inn)).foldl max 0) && decide (ip.reg.nextNode ≥ (g.nodes.map (·.id)).foldl max 0))
     return { corr := corr, spec := c06 && c02 && c01 && c03, nontrivial := inputWF && g.genes.any (fun y => !y.en), cls := (← fldStr inp "origin"),
              detail := (d.getD "") ++ (if used == consumed then "" else s!" randomness {used} vs {consumed}"),
              props := [("C06", c06, "spawned member differs from the start genome in more than weights, or shares state", "spawn:topology"),
                        ("C02", c02, "spawned population violates the population invariant: " ++ PopSpec.popInvWhy ip o.popSize, "spawn:popinv"),
                        ("C01", c01, "spawned genome not well-formed", "spawn:wf"),
-                       ("C03", c03, "counters not above the start genome", "spawn:counters")] }
+                       -- counters hold the LAST number in use (the next issued is counter+1): `≥` is the C03 convention (Spec/Registry.lean)
+                     ("C03", c03, "counters not above the start genome", "spawn:counters")] }
 
 def hSpeciate : Handler := fun j => do
   let inp ← fld j "in"
